@@ -11,7 +11,8 @@ def lemmas():
     out.append(Lemma(name="C09.filter.loop", src="text.c", entry="h_filter", props=["C09", "C16", "C10"], enforce=[R("filter_assembly_str_fsa")],
                      loops_file="filter_loop.json", apply_loops=True, timeout=1800, mem_gb=40, object_bits=10, ignore=ART, functions=["filter_assembly_str_fsa"],
                      desc="line filter under a loop contract, input line of ANY length (object size is the only limit): reads stay inside the NUL-terminated input, writes stay inside filter_str[0..99], the buffer is left NUL-terminated, a byte above 0x7e in the scanned part is an error, the loop terminates"))
-    for tag, what in (("B", "the scanned part (up to the returned position) holds no LF, CR, NUL, ';' or '%'"), ("C", "the kept text is empty or starts with a letter-range character")):
+    for tag, what in (("B", "the scanned part (up to the returned position) holds no LF, CR, NUL, ';' or '%'"), ("C", "the kept text is empty or starts with a letter-range character"),
+                      ("D", "the scan stops only at LF, CR, NUL, ';' or '%', or when 99 characters have been kept (so blanks, which are not kept, never shorten a line)")):
         out.append(Lemma(name="C09.filter.loop." + tag, src="text.c", entry="h_filter", props=["C09", "C16", "C06"], enforce=["filter_assembly_str_fsa/filter_assembly_str_fsa__c" + tag],
                          loops_file="filter_loop_%s.json" % tag, apply_loops=True, timeout=1800, mem_gb=40, object_bits=10, ignore=ART, safety=False, functions=["filter_assembly_str_fsa"],
                          desc="line filter under a loop contract (any line length), second/third postcondition group: " + what + " (memory-safety obligations are those of C09.filter.loop)"))
